@@ -156,6 +156,18 @@ Proof.
   rewrite validate_unfold. cbv zeta. destruct (registration_exists (fst (track s k')) k'); reflexivity.
 Qed.
 
+Lemma inv_validate_stale s k : Inv s -> Inv (validate_stale s k).
+Proof.
+  intros I. unfold validate_stale. destruct (registration_exists s k); [exact I | apply inv_validate; exact I].
+Qed.
+
+Lemma view_validate_stale s k k' : view (validate_stale s k') k = view (fst (track s k')) k.
+Proof.
+  unfold validate_stale. destruct (registration_exists s k') eqn:E.
+  - rewrite (track_exists s k' b E). reflexivity.
+  - apply view_validate.
+Qed.
+
 (* ------------------------------------------------------------ markActive *)
 Lemma inv_mark_active s k : Inv s -> Inv (mark_active s k).
 Proof.
